@@ -1,4 +1,5 @@
 """C13 — exported state restores to an equivalent provider; the file store shows a new instance what was written."""
+import copy
 import json
 import os
 import shutil
@@ -38,7 +39,7 @@ STATS = {"restores": 0, "objects": 0, "fs_ops": 0}
 
 
 def cases(rng, tier):
-    nh, nf, na = {"quick": (6, 80, 10), "thorough": (120, 1500, 150), "search": (60, 800, 100)}[tier]
+    nh, nf, na = {"quick": (6, 80, 10), "thorough": (60, 1500, 100), "search": (40, 800, 80)}[tier]
     out = []
     for i in range(nh):
         oidc, jwt = rng.random() < 0.75, rng.random() < 0.4
@@ -357,6 +358,8 @@ def gen_fs(rng):
     vconv = rng.choice(["json", "json", "pass"])
     # the pass-through key conversion is for keys that already are file names: no '/' (FileLock would create directories for them)
     keys = rng.sample([k for k in KEYPOOL if kconv == "qp" or "/" not in k], rng.randint(2, 5))
+    # the file of key "x.lock" IS the lock file of key "x" (F-C13-d): the two are not used side by side, the model has no lock files
+    keys = [k for k in keys if not (k.endswith(".lock") and k[:-5] in keys)]
     ops = []
     for _ in range(rng.randint(4, 14)):
         k = rng.choice(["set", "set", "set", "upd", "get", "del", "contains", "keys", "len", "reopen", "clear"] if rng.random() < 0.9 else ["clear"])
@@ -398,7 +401,7 @@ def _run_fs(c):
                     else:
                         r = ["ok", None]
                 elif o[0] == "get":
-                    r = ["val", fs[o[1]]]
+                    r = ["val", copy.deepcopy(fs[o[1]])]      # the store hands out its cached object: a later in-place update must not rewrite this record
                 elif o[0] == "del":
                     del fs[o[1]]; r = ["ok"]
                 elif o[0] == "contains":
